@@ -313,6 +313,29 @@ Proof.
     pose proof (Hnew (ONative (skipn (length node_prefix) name) NCore)) as H. rewrite E in H. cbn [fst] in H. apply H.
 Qed.
 
+Lemma load_native_run_sgood st name : SInv st -> sgood st (fst (load_native_run nat_reg rq st name)).
+Proof.
+  intro HS. unfold load_native_run.
+  destruct (cache_get (native_cache st) name); [apply sgood_refl; exact HS|].
+  pose proof (load_native_sgood st name HS) as G. destruct (load_native nat_reg st name) as [st1 r]. cbn [fst] in G.
+  destruct r as [m| | | |]; try exact G.
+  remember (run_lazies rq st1 loader_file (assoc_reqs (n_loader_reqs nat_reg) (registered_name st1 m))) as rl eqn:ERL.
+  assert (G3 : sgood st1 (fst rl)) by (rewrite ERL; apply run_lazies_sgood; exact (proj1 G)).
+  destruct rl as [st2 oof]. cbn [fst] in *. exact (sgood_trans _ _ _ G G3).
+Qed.
+
+(* a name that is not a native or core name: nothing happens *)
+Lemma lnr_none st name : snd (load_native nat_reg st name) = RNone -> load_native_run nat_reg rq st name = (st, RNone).
+Proof.
+  unfold load_native_run, load_native. destruct (cache_get (native_cache st) name); [discriminate|].
+  destruct (if mem_zs name (n_registry nat_reg) then Some NRegistry else if mem_zs name (n_global nat_reg) then Some NGlobal
+            else if mem_zs name (n_core nat_reg) then Some NCore else None) as [k|].
+  - destruct (new_module st (ONative name k)) as [st1 m]. cbn [snd]. discriminate.
+  - destruct (has_prefix node_prefix name); [|reflexivity].
+    destruct (mem_zs (skipn (length node_prefix) name) (n_core nat_reg)); [|discriminate].
+    destruct (new_module st (ONative (skipn (length node_prefix) name) NCore)) as [st1 m]. cbn [snd]. discriminate.
+Qed.
+
 Lemma sinv_alias_resolved st k m f : SInv st -> file_owner st m = Some f -> cache_get (files_cache st) f = Some m ->
   select fs (cands_file_or_dir fs (parse k)) = SFile f ->
   SInv (with_resolved st (cache_set (resolved_cache st) k m)).
@@ -403,9 +426,9 @@ Proof.
         split; [split; [exact HS2|eapply ext_trans; [exact (proj2 G)|constructor; auto]]|].
         intros _. exists f. split; [exact Ho|exact Hsel].
       * split; [exact G|intros _; exact R].
-  - pose proof (load_native_sgood st r HS) as G0.
-    destruct (load_native nat_reg st r) as [st0 rn] eqn:ELN. cbn [fst snd] in *.
-    destruct rn as [m| | | |]; try (split; [exact G0|split; [discriminate|intros _ Hrn; discriminate Hrn]]).
+  - pose proof (load_native_run_sgood st r HS) as G0.
+    destruct (load_native_run nat_reg rq st r) as [st0 rn] eqn:ELN. cbn [fst snd] in *.
+    destruct rn as [m| | | |]; try (split; [exact G0|split; [discriminate|intros _ Hrn; rewrite (lnr_none st r Hrn) in ELN; inversion ELN]]).
     set (nk := render d ++ 0 :: r).
     destruct (cache_get (node_cache st0) nk) as [m0|] eqn:Ec.
     + cbn [fst snd]. split; [exact G0|split; [discriminate|]]. intros _ _ Hd Hr. cbn [rn_res].
